@@ -101,3 +101,75 @@ package template
 //@   loop 1 invariant none-so-far: forall(k, 0 <= k && k <= rangeIndex ==> len(d.Mocks[k].Methods) == 0)
 //@   ensures true-has-witness: r ==> exists(k, 0 <= k && k < len(d.Mocks) && len(d.Mocks[k].Methods) > 0)
 //@   ensures false-means-none: !r ==> forall(k, 0 <= k && k < len(d.Mocks) ==> len(d.Mocks[k].Methods) == 0)
+
+//@ -- parameter list renderings (C02, C03, C07), for every number of parameters ---------------
+//@ define typeStr(p) = uf("registry.Var.TypeString", String, p.Var)
+//@ define methodArgSpec(p) = ite(p.Variadic, p.Var.Name + " ..." + typeStr(p)[2:], p.Var.Name + " " + typeStr(p))
+//@ define callNameSpec(p) = ite(p.Variadic, p.Var.Name + "...", p.Var.Name)
+//@ define paramsOk(ps) = forall(k, 0 <= k && k < len(ps) ==> ps[k].Var != nil)
+
+//@ func template.ParamData.TypeString -> r
+//@   trusted renders the go/types type with the import-aware qualifier (types.TypeString: A-typestring); named here so that field type and method header provably use the same string
+//@   ensures r == typeStr(p)
+
+//@ func template.ParamData.MethodArg -> r
+//@   props C02
+//@   safety C19
+//@   requires p.Var != nil && (p.Variadic ==> len(typeStr(p)) >= 2)
+//@   ensures variadic: p.Variadic ==> r == p.Var.Name + " ..." + typeStr(p)[2:]
+//@   ensures plain: !p.Variadic ==> r == p.Var.Name + " " + typeStr(p)
+
+//@ func template.ParamData.CallName -> r
+//@   props C03
+//@   safety C19
+//@   requires p.Var != nil
+//@   ensures variadic-spread: p.Variadic ==> r == p.Var.Name + "..."
+//@   ensures plain: !p.Variadic ==> r == p.Var.Name
+
+//@ func template.MethodData.ArgList -> r
+//@   props C02
+//@   safety C19
+//@   modifies A:string#
+//@   requires paramsOk(m.Params) && forall(k, 0 <= k && k < len(m.Params) ==> (m.Params[k].Variadic ==> len(typeStr(m.Params[k])) >= 2))
+//@   loop 1 invariant idx: rangeIndex >= -1
+//@   loop 1 invariant so-far: forall(k, 0 <= k && k <= rangeIndex ==> params[k] == methodArgSpec(m.Params[k]))
+//@   ensures in-parameter-order: isJoin(r, len(m.Params), ", ", k, methodArgSpec(m.Params[k]))
+
+//@ func template.MethodData.ArgCallList -> r
+//@   props C03
+//@   safety C19
+//@   modifies A:string#
+//@   requires paramsOk(m.Params)
+//@   loop 1 invariant idx: rangeIndex >= -1
+//@   loop 1 invariant so-far: forall(k, 0 <= k && k <= rangeIndex ==> params[k] == callNameSpec(m.Params[k]))
+//@   ensures in-parameter-order: isJoin(r, len(m.Params), ", ", k, callNameSpec(m.Params[k]))
+
+//@ func template.MethodData.ReturnArgNameList -> r
+//@   props C07
+//@   safety C19
+//@   modifies A:string#
+//@   requires paramsOk(m.Returns)
+//@   loop 1 invariant idx: rangeIndex >= -1
+//@   loop 1 invariant so-far: forall(k, 0 <= k && k <= rangeIndex ==> params[k] == m.Returns[k].Var.Name)
+//@   ensures in-result-order: isJoin(r, len(m.Returns), ", ", k, m.Returns[k].Var.Name)
+
+//@ func template.MethodData.ReturnArgTypeList -> r
+//@   props C02
+//@   safety C19
+//@   modifies A:string#
+//@   requires paramsOk(m.Returns)
+//@   loop 1 invariant idx: rangeIndex >= -1
+//@   loop 1 invariant so-far: forall(k, 0 <= k && k <= rangeIndex ==> params[k] == typeStr(m.Returns[k]))
+//@   ensures none: len(m.Returns) == 0 ==> r == ""
+//@   ensures single-bare: len(m.Returns) == 1 ==> r == typeStr(m.Returns[0])
+//@   ensures many-parenthesised: len(m.Returns) > 1 ==> hasPrefix(r, "(") && hasSuffix(r, ")") && isJoin(r[1:len(r)-1], len(m.Returns), ", ", k, typeStr(m.Returns[k]))
+
+//@ func template.templateFuncs[SyncPkgQualifier] -> r
+//@   props C05
+//@   safety C19
+//@   requires forall(k, 0 <= k && k < len(imports) ==> imports[k] != nil && imports[k].pkg != nil)
+//@   loop 1 invariant idx: rangeIndex >= -1
+//@   loop 1 invariant none-so-far: forall(k, 0 <= k && k <= rangeIndex ==> pkgPathOf(imports[k]) != "sync")
+//@   ensures sync-import-qualifier: (exists(k, 0 <= k && k < len(imports) && pkgPathOf(imports[k]) == "sync")) ==> exists(k, 0 <= k && k < len(imports) && pkgPathOf(imports[k]) == "sync" && r == qualT(imports[k]) && forall(j, 0 <= j && j < k ==> pkgPathOf(imports[j]) != "sync"))
+//@   ensures default: (forall(k, 0 <= k && k < len(imports) ==> pkgPathOf(imports[k]) != "sync")) ==> r == "sync"
+//@ define qualT(p) = ite(p == nil, "", ite(p.Alias != "", p.Alias, p.pkg.Name()))
